@@ -135,7 +135,8 @@ def gen_smoothing(rng, fnyq, n, dt, operator=None):
     if operator == "savitzky_and_golay":
         f = np.fft.rfftfreq(n, dt)
         idx = np.sort(rng.choice(np.arange(10, max(11, len(f) - 10)), size=min(k, max(1, len(f) - 20)), replace=False))
-        fcs = f[idx]
+        # centre frequencies on and off the FFT grid (the operator works at the nearest bin; exact half-way points are avoided)
+        fcs = f[idx] + (f[1] - f[0]) * rng.choice([0.0, 0.3, -0.3, 0.45, -0.45], size=len(idx))
     else:
         fcs = np.sort(np.exp(rng.uniform(np.log(max(0.2, 2.0 / (n * dt))), np.log(0.9 * fnyq), size=k)))
     return operator, b, fcs
